@@ -205,7 +205,7 @@ func vmLine(opts regexp2.RegexOptions, code *syntax.Code, text []rune, atts [][2
 	for i, a := range atts {
 		as[i] = fmt.Sprintf("(%d %d)", a[0], a[1])
 	}
-	return core.S("c10", "vm", core.SInts(code.Codes), "("+strings.Join(strs, " ")+")", fmt.Sprint(len(code.Sets)), fmt.Sprint(code.Capsize),
+	return core.S("c10", "vm", core.SInts(code.Codes), "("+strings.Join(strs, " ")+")", fmt.Sprint(len(code.Sets)), fmt.Sprint(code.Capsize), fmt.Sprint(code.TrackCount),
 		core.SInts(text), "("+strings.Join(setrows, " ")+")", "("+strings.Join(lower, " ")+")", core.SInts(word), core.SInts(ecma),
 		core.SBool(opts&(regexp2.RE2|regexp2.ECMAScript) != 0), core.SBool(opts&regexp2.ECMAScript != 0),
 		fmt.Sprint(fuel), fmt.Sprint(k), "("+strings.Join(as, " ")+")")
@@ -328,7 +328,7 @@ func vmCheck(sz vmSizes) func(c *core.Ctx, cases []engCase) []core.Outcome {
 				continue
 			}
 			ans, err := parseSx(res[pi])
-			if err != nil || ans.head() != "vm" || len(ans.args()) != 1+len(p.atts) {
+			if err != nil || ans.head() != "vm" || len(ans.args()) != 2+len(p.atts) {
 				o.Fail = &core.Failure{Kind: "correspondence-break", Key: "W:driver-answer", Summary: p.which + " program: the Lean driver did not answer the request", Expected: "(vm wf …)", Got: res[pi]}
 				continue
 			}
@@ -337,9 +337,13 @@ func vmCheck(sz vmSizes) func(c *core.Ctx, cases []engCase) []core.Outcome {
 				o.Fail = &core.Failure{Kind: "correspondence-break", Key: "W:wf-false:" + p.which, Summary: fmt.Sprintf("Prog.wf is false for the %s program of %q (options %d): %v", p.which, cs.Pattern, cs.Opts, p.code.Codes), Expected: "wf", Got: "not wf"}
 				continue
 			}
+			if args[1].atom != "1" {
+				o.Fail = &core.Failure{Kind: "correspondence-break", Key: "W:potential-exceeds-need:" + p.which, Summary: fmt.Sprintf("potOk is false for the %s program of %q (options %d): the positions of the program can push more than 4*TrackCount = %d slots between two storage checks (hypothesis of vm_track_no_overflow_program): %v", p.which, cs.Pattern, cs.Opts, 4*p.code.TrackCount, p.code.Codes), Expected: "potOk", Got: "not potOk"}
+				continue
+			}
 			for ai := range p.atts {
 				a := &p.atts[ai]
-				want, got := a.render(), sxRender(args[1+ai])
+				want, got := a.render(), sxRender(args[2+ai])
 				if want == got {
 					continue
 				}
@@ -347,8 +351,8 @@ func vmCheck(sz vmSizes) func(c *core.Ctx, cases []engCase) []core.Outcome {
 				full := vmRunGo(p.re, p.text, a.pos, a.textstart, p.which == "quick", sz.maxSteps, sz.maxSteps)
 				key, detail := "W:result", ""
 				if r2, err := c.RunDriver([]string{vmLine(regexp2.RegexOptions(cs.Opts), p.code, p.text, [][2]int{{a.pos, a.textstart}}, sz.maxSteps+1, sz.maxSteps)}); err == nil {
-					if a2, err := parseSx(r2[0]); err == nil && len(a2.args()) == 2 {
-						la := a2.args()[1]
+					if a2, err := parseSx(r2[0]); err == nil && len(a2.args()) == 3 {
+						la := a2.args()[2]
 						if strings.HasPrefix(la.head(), "fault-") {
 							key = "W:" + la.head()
 						}
@@ -446,7 +450,7 @@ func vmLeg(c *core.Ctx, n int, sz vmSizes) {
 	g := &vmGen{eng: &engGen{allowRTL: true, perPat: 3, maxLen: 10, biasFind: true, biasRewrite: true}}
 	core.RunLeg(c, core.Leg[engCase]{
 		Name: "W", Kind: "correspondence(interpreter model)",
-		Rule: "patterns: 5/6 from the full-syntax engine generator (random ASTs with lookarounds, backreferences, conditionals, balancing groups, atomic groups, greedy/lazy/counted loops, shapes the finders and rewrites look for; 30% literals harvested from the repository's tests; option sets incl. RightToLeft, IgnoreCase, ECMAScript, RE2; code-gen analysis on/off), 1/6 loop towers and random nests of the C13 generator; inputs pattern-directed (≤ 10 runes) or random. For the main and the bool-only program and EVERY start position (\\G bound to it, plus two attempts with \\G elsewhere): VerifAttemptTrace (state at the top of every iteration of executeDefault) vs the Lean model Model/VM.lean run by the driver on the same code array, string table, text and oracle rows (Sets[i].CharIn, unicode.ToLower, word characters of the text's runes): outcome, capture arrays after tidy, final text position, number of iterations, deepest backtracking/grouping stack, the first K trace tuples and a rolling hash of all tuples must be equal; Prog.wf must be true of every program. A difference is re-run with full traces and keyed by the operator of the first diverging iteration. non-trivial = program longer than 8 words and non-empty input; attempts longer than the step cap are skipped (bucket)",
+		Rule: "patterns: 5/6 from the full-syntax engine generator (random ASTs with lookarounds, backreferences, conditionals, balancing groups, atomic groups, greedy/lazy/counted loops, shapes the finders and rewrites look for; 30% literals harvested from the repository's tests; option sets incl. RightToLeft, IgnoreCase, ECMAScript, RE2; code-gen analysis on/off), 1/6 loop towers and random nests of the C13 generator; inputs pattern-directed (≤ 10 runes) or random. For the main and the bool-only program and EVERY start position (\\G bound to it, plus two attempts with \\G elsewhere): VerifAttemptTrace (state at the top of every iteration of executeDefault) vs the Lean model Model/VM.lean run by the driver on the same code array, string table, text and oracle rows (Sets[i].CharIn, unicode.ToLower, word characters of the text's runes): outcome, capture arrays after tidy, final text position, number of iterations, deepest backtracking/grouping stack, the first K trace tuples and a rolling hash of all tuples must be equal; Prog.wf and potOk (Σ weight ≤ 4·TrackCount, hypothesis of vm_track_no_overflow_program) must be true of every program. A difference is re-run with full traces and keyed by the operator of the first diverging iteration. non-trivial = program longer than 8 words and non-empty input; attempts longer than the step cap are skipped (bucket)",
 		Corpus: vmCorpus, N: n, Gen: g.next, Check: vmCheck(sz), Batch: 100,
 	})
 }
